@@ -54,20 +54,15 @@ type sample struct {
 
 type jobResult struct {
 	evals          int
-	orderDependent int // requests with several distinct -bin keys (served orderRepeats times)
+	orderDependent int            // requests with several distinct -bin keys (served orderRepeats times)
+	byWriter       map[string]int // requests per ResponseWriter (writer.go)
+	wrapperUsed    map[string]int // ... of which library code made calls on the wrapper
+	writerSamples  map[string]sample
 	classes        map[string]int
 	notes          map[string]int
 	nontrivial     int // distinct non-trivial tuples of this job (jobs enumerate disjoint sets of tuples)
 	viol           []violRec
 	samples        map[string]sample
-}
-
-func pack(t tuple) uint64 {
-	var v uint64
-	for _, x := range t {
-		v = v<<10 | uint64(x) // every axis has fewer than 1024 values (selfCheck)
-	}
-	return v
 }
 
 type worker struct {
@@ -125,6 +120,19 @@ func findClause(r *result, clause string) *finding {
 // built from what remains, so that one cause met under many combinations
 // collapses, while a cause that needs a particular value keeps that value.
 func (w *worker) minimize(t tuple, clause string) (tuple, *result, *Case) {
+	// the writer first: the plain recorder, else the same capabilities in front of
+	// the tree instead of inside a decorating Mux (which frees the cfg axis)
+	for _, wi := range []int{0, frontTwin(t[6])} {
+		if wi < 0 || wi == t[6] {
+			continue
+		}
+		t2 := t
+		t2[6] = wi
+		if r2, _ := w.check(t2); findClause(r2, clause) != nil {
+			t = t2
+			break
+		}
+	}
 	for _, axis := range []int{0, 2, 3, 4, 5} {
 		t2 := t
 		t2[axis] = baseOf(axis, t)
@@ -179,6 +187,9 @@ func fingerprint(t tuple, f *finding) string {
 	if t[5] != baseOf(5, t) {
 		parts = append(parts, "body="+bodies[t[5]].Name)
 	}
+	if t[6] != 0 {
+		parts = append(parts, "writer="+writers[t[6]].Name)
+	}
 	if f.Obs != "" {
 		parts = append(parts, f.Obs)
 	}
@@ -188,8 +199,9 @@ func fingerprint(t tuple, f *finding) string {
 var progress int64
 
 func (w *worker) runJob(gen func(func(tuple))) *jobResult {
-	jr := &jobResult{classes: map[string]int{}, notes: map[string]int{}, samples: map[string]sample{}}
-	nontrivial := map[uint64]struct{}{}
+	jr := &jobResult{classes: map[string]int{}, notes: map[string]int{}, samples: map[string]sample{},
+		byWriter: map[string]int{}, wrapperUsed: map[string]int{}, writerSamples: map[string]sample{}}
+	nontrivial := map[tuple]struct{}{}
 	seenRaw := map[string]bool{}
 	gen(func(t tuple) {
 		atomic.AddInt64(&progress, 1)
@@ -199,8 +211,19 @@ func (w *worker) runJob(gen func(func(tuple))) *jobResult {
 		for _, n := range r.Notes {
 			jr.notes[n]++
 		}
-		if r.Class != "unknown-path" {
-			nontrivial[pack(t)] = struct{}{}
+		// a request behind a wrapper only counts when library code did use the wrapper
+		if r.Class != "unknown-path" && (!writers[t[6]].Wrap || r.Obs.Probe.Calls > 0) {
+			nontrivial[t] = struct{}{}
+		}
+		if t[6] != 0 {
+			wn := writers[t[6]].Name
+			jr.byWriter[wn]++
+			if r.Obs.Probe.Calls > 0 {
+				jr.wrapperUsed[wn]++
+			}
+			if _, ok := jr.writerSamples[wn]; !ok && r.Class == "stream-ok:BD" && t[0] <= 1 && t[4] == 0 {
+				jr.writerSamples[wn] = sample{Case: c, Observed: r.Obs.short() + fmt.Sprintf("; through the wrapper: %d calls, %d flushes", r.Obs.Probe.Calls, r.Obs.Probe.Flushes)}
+			}
 		}
 		if orderDependent(c.Hdr) {
 			jr.orderDependent++
@@ -209,7 +232,7 @@ func (w *worker) runJob(gen func(func(tuple))) *jobResult {
 		if orderDependent(c.Hdr) && (r.Class == "refused:400" || strings.HasPrefix(r.Class, "unary-ok")) {
 			sampleKey += fmt.Sprintf(" [several -bin keys: served %d times, one per insertion order of the keys]", orderRepeats)
 		}
-		if _, ok := jr.samples[sampleKey]; !ok {
+		if _, ok := jr.samples[sampleKey]; !ok && t[6] == 0 {
 			jr.samples[sampleKey] = sample{Case: c, Observed: r.Obs.short()}
 		}
 		for i := range r.Findings {
@@ -237,22 +260,35 @@ func describe(c *Case) string {
 	if c.CTPresent {
 		ct = fmt.Sprintf("%q", c.CT)
 	}
-	return fmt.Sprintf("cfg=%s %s %s Content-Type=%s headers=%v body=%s(%d bytes)", c.Cfg, c.Method, c.Path, ct, c.Hdr, c.BodyName, len(c.BodyHex)/2)
+	s := fmt.Sprintf("cfg=%s %s %s Content-Type=%s headers=%v body=%s(%d bytes)", c.Cfg, c.Method, c.Path, ct, c.Hdr, c.BodyName, len(c.BodyHex)/2)
+	if c.Writer != "" {
+		s += " ResponseWriter=" + c.Writer
+	}
+	return s
 }
 
 // ---- enumerations ---------------------------------------------------------
 
-// The thorough tier's grammar is the union of three blocks (disjoint by construction):
+// The thorough tier's grammar is the union of four blocks (disjoint by construction):
 //
-//	A  the full product of all six axes over the hand-written header sets;
+//	A  the full product of the six request axes over the hand-written header
+//	   sets, on the plain recorder;
 //	B  the generated header sets (handler outcomes, several -bin values) crossed
 //	   with cfg x registered method x every Content-Type x every body, for POST
-//	   (the only requests that can get as far as the headers and the handler);
-//	C  the generated header sets in every other two-axis sweep (header set x
-//	   path, header set x HTTP method) around the plain valid request of each
-//	   method kind, for every cfg.
+//	   (the only requests that can get as far as the headers and the handler), on
+//	   the plain recorder;
+//	D  every other ResponseWriter (writer.go) crossed with cfg x registered
+//	   method x every Content-Type x hand-written header set x every body, for POST;
+//	C  everything else that a two-axis sweep around the plain valid request of
+//	   each method kind reaches, for every cfg: generated header set x path,
+//	   generated header set x HTTP method, and writer x path, writer x HTTP method,
+//	   writer x generated header set.
 func coveredAB(t tuple) bool {
-	return t[4] < nCoreHdrs || (t[1] < len(kinds) && t[2] == 0)
+	return t[6] == 0 && (t[4] < nCoreHdrs || (t[1] < len(kinds) && t[2] == 0))
+}
+
+func coveredD(t tuple) bool {
+	return t[6] != 0 && t[1] < len(kinds) && t[2] == 0 && t[4] < nCoreHdrs
 }
 
 func chunkJobs(ts []tuple) []func(func(tuple)) {
@@ -272,7 +308,7 @@ func chunkJobs(ts []tuple) []func(func(tuple)) {
 func blockC() []tuple {
 	var out []tuple
 	for ci := range cfgs {
-		out = append(out, sweepTuples(ci, false, func(t tuple) bool { return !coveredAB(t) })...)
+		out = append(out, sweepTuples(ci, false, func(t tuple) bool { return !coveredAB(t) && !coveredD(t) })...)
 	}
 	return out
 }
@@ -312,6 +348,26 @@ func fullJobs() ([]func(func(tuple)), int) {
 					}
 				}
 			})
+			nw := 0
+			for wi := 1; wi < n[6]; wi++ {
+				if (tuple{ci, pi, 0, 0, 0, 0, wi}).valid() {
+					nw++
+				}
+			}
+			total += n[3] * nCoreHdrs * n[5] * nw
+			jobs = append(jobs, func(yield func(tuple)) { // block D (the writer innermost: one plain run per request serves all comparisons)
+				for ti := 0; ti < n[3]; ti++ {
+					for hi := 0; hi < nCoreHdrs; hi++ {
+						for bi := 0; bi < n[5]; bi++ {
+							for wi := 1; wi < n[6]; wi++ {
+								if t := (tuple{ci, pi, 0, ti, hi, bi, wi}); t.valid() {
+									yield(t)
+								}
+							}
+						}
+					}
+				}
+			})
 		}
 	}
 	c := blockC()
@@ -339,8 +395,8 @@ func sweepTuples(ci int, withCfg bool, keep func(tuple) bool) []tuple {
 		base := tuple{ci, pi, 0, 0, 0, 0}
 		base[3], base[5] = baseOf(3, base), baseOf(5, base)
 		add(base)
-		for a := first; a < 6; a++ {
-			for b := a + 1; b < 6; b++ {
+		for a := first; a < nAxes; a++ {
+			for b := a + 1; b < nAxes; b++ {
 				for x := 0; x < n[a]; x++ {
 					for y := 0; y < n[b]; y++ {
 						t := base
@@ -352,7 +408,7 @@ func sweepTuples(ci int, withCfg bool, keep func(tuple) bool) []tuple {
 		}
 	}
 	sort.Slice(out, func(i, j int) bool {
-		for k := 0; k < 6; k++ {
+		for k := 0; k < nAxes; k++ {
 			if out[i][k] != out[j][k] {
 				return out[i][k] < out[j][k]
 			}
@@ -366,8 +422,17 @@ func sweepTuples(ci int, withCfg bool, keep func(tuple) bool) []tuple {
 // every single-axis sweep and every two-axis sweep. Every pair of values of
 // any two axes therefore occurs together in at least one request
 // (pairwise-complete), and every value of every axis is tried against an
-// otherwise valid request of each kind.
-func quickTuples() []tuple { return sweepTuples(0, true, nil) }
+// otherwise valid request of each kind. The writers that live inside a
+// decorating Mux only exist for the HandleServices configurations: the sweeps
+// that involve the writer axis are therefore repeated around cfg "mux".
+func quickTuples() []tuple {
+	out := sweepTuples(0, true, nil)
+	seen := map[tuple]bool{}
+	for _, t := range out {
+		seen[t] = true
+	}
+	return append(out, sweepTuples(1, false, func(t tuple) bool { return t[6] != 0 && !seen[t] })...)
+}
 
 func quickJobs() ([]func(func(tuple)), int) {
 	ts := quickTuples()
@@ -443,6 +508,7 @@ func selfCheck() error {
 		want(refStream("CS", body("frame-err-binmsg")).Msg == "fail: k\xff\xfe" && len(refStream("CS", body("frame-err-binmsg")).Data) == 0, "error with a non-UTF-8 status message before any data"),
 		want(len(refStream("CS", body("frame-err-binmsg-after-data")).Data) == 1 && len(refStream("SS", body("frame-err-binmsg-after-data")).Data) == 2 && len(refStream("BD", body("frame1+frame-err-binmsg-after-data")).Data) == 2, "error with a non-UTF-8 status message after data"),
 		want(refStream("BD", body("frame-err-text-after-data")).Msg == "fail: who" && refStream("SS", body("frame-err-text-after-data")).Code == 5, "error with a text status message after data"),
+		want(selfCheckMessageCounts() == "", "number of reply messages by body: "+selfCheckMessageCounts()),
 	)
 	dm := func(codec, n string, m *gt.Message) bool {
 		t, got := decodeRef(codec, body(n))
@@ -473,6 +539,7 @@ func selfCheck() error {
 		want(hd("unpadded-bin") == either && hd("timeout-word") == either && hd("timeout-no-unit") == either && hd("timeout-unit-only") == either && hd("timeout-negative") == either && hd("timeout-bad-unit") == either, "open header sets"),
 	)
 	errs = append(errs, selfCheckGenerated()...)
+	errs = append(errs, selfCheckWriters()...)
 	for _, e := range errs {
 		if e != nil {
 			return e
@@ -485,11 +552,6 @@ func selfCheck() error {
 func selfCheckGenerated() []error {
 	var errs []error
 	bad := func(format string, a ...interface{}) { errs = append(errs, fmt.Errorf("self-check: "+format, a...)) }
-	for i, n := range axisSizes() {
-		if n >= 1024 {
-			bad("axis %d has %d values: pack() would collide", i, n)
-		}
-	}
 	names := map[string]bool{}
 	for _, h := range hdrs {
 		if names[h.Name] {
@@ -696,7 +758,20 @@ func main() {
 	notes := map[string]int{}
 	nontrivial, orderDep := 0, 0
 	samplesByClass := map[string]sample{}
+	byWriter, wrapperUsed := map[string]int{}, map[string]int{}
+	writerSamples := map[string]sample{}
 	for _, jr := range results {
+		for k, v := range jr.byWriter {
+			byWriter[k] += v
+		}
+		for k, v := range jr.wrapperUsed {
+			wrapperUsed[k] += v
+		}
+		for k, s := range jr.writerSamples {
+			if _, ok := writerSamples[k]; !ok {
+				writerSamples[k] = s
+			}
+		}
 		evals += jr.evals
 		nontrivial += jr.nontrivial
 		orderDep += jr.orderDependent
@@ -718,6 +793,14 @@ func main() {
 	if evals != enumerated {
 		fmt.Fprintf(os.Stderr, "INCONCLUSIVE: enumerated %d requests, expected %d\n", evals, enumerated)
 		os.Exit(2)
+	}
+	// every writer of the grammar was met, and every wrapper was handed to library code
+	for wi := 1; wi < len(writers); wi++ {
+		wv := &writers[wi]
+		if byWriter[wv.Name] == 0 || (wv.Wrap && wrapperUsed[wv.Name] == 0) {
+			fmt.Fprintf(os.Stderr, "INCONCLUSIVE: ResponseWriter %s: %d requests, library code used the wrapper in %d\n", wv.Name, byWriter[wv.Name], wrapperUsed[wv.Name])
+			os.Exit(2)
+		}
 	}
 
 	// JSON == protobuf
@@ -741,19 +824,28 @@ func main() {
 	if len(samples) > 40 {
 		samples = samples[:40]
 	}
+	for wi := 1; wi < len(writers); wi++ {
+		if wv := writers[wi]; wv.Place == placeMux && wv.Kind != "bare" && wv.Wrap {
+			continue // one sample per capability set, plus the two simplest decorating-Mux cases
+		}
+		if s, ok := writerSamples[writers[wi].Name]; ok {
+			samples = append(samples, map[string]interface{}{"class": "stream-ok:BD behind ResponseWriter " + writers[wi].Name, "request": describe(s.Case), "observed": s.Observed})
+		}
+	}
 	samples = append(samples, sc.samples...)
 
-	rule := "request grammar = cfg{srv, mux(HandleServices), srv+/api base+interceptors, mux+/api base+interceptors} x path{4 registered methods (one per kind), 14-15 unregistered/non-canonical} x method{POST,GET,HEAD,PUT,DELETE,OPTIONS,PATCH,post,CONNECT} x Content-Type{" + fmt.Sprint(len(cts)) + " strings} x header set{" + fmt.Sprint(len(hdrs)) + "} x body{" + fmt.Sprint(len(bodies)) + "}; " +
-		"each request is served by the real handler tree on a recorder and judged by a reference function of the literal request. " +
+	rule := "request grammar = cfg{srv, mux(HandleServices), srv+/api base+interceptors, mux+/api base+interceptors} x path{4 registered methods (one per kind), 14-15 unregistered/non-canonical} x method{POST,GET,HEAD,PUT,DELETE,OPTIONS,PATCH,post,CONNECT} x Content-Type{" + fmt.Sprint(len(cts)) + " strings} x header set{" + fmt.Sprint(len(hdrs)) + "} x body{" + fmt.Sprint(len(bodies)) + "} x ResponseWriter{" + fmt.Sprint(len(writers)) + "}; " +
+		"each request is served by the real handler tree on a recorder (behind the ResponseWriter wrapper of the case) and judged by a reference function of the literal request. " +
+		fmt.Sprintf("RESPONSE WRITERS (%d): what the http.ResponseWriter handed to the library can do. The plain httptest recorder; the recorder handed on untouched by a decorating Mux function given to HandleServices; and %d wrappers around the recorder, each a Go type of its own with exactly the named optional methods besides Header/Write/WriteHeader - %s - each in two placements: as an http middleware in front of the whole handler tree (*httpgrpc.Server resp. the ServeMux), and inside a Mux function given to HandleServices that decorates every handler it registers, as the package documentation suggests (only for the HandleServices configurations). The reply is read from the recorder behind the wrapper. Oracle: the same reference function as for every request (in particular: data frames followed by exactly one trailer frame), and, when that finds nothing, status, headers, body (streaming replies: frame by frame, trailers compared as messages) and application-code counters equal to those of the same request served on the plain recorder. ", len(writers), len(capKinds), capKindList()) +
 		fmt.Sprintf("Header sets: %d hand-written ones + %d generated ones of two families. ", nCoreHdrs, len(hdrs)-nCoreHdrs) +
 		fmt.Sprintf("(1) HANDLER OUTCOMES (%d sets): a header X-Outcome, plain metadata to the library, makes the handler of whatever kind is addressed finish with an error value of a given shape instead of the status.Err() the handlers otherwise fail with: at{start = before it reads the request, end = after it has read and answered everything, where it would return nil} x trailer metadata set by the handler{no,yes} x (type{status.Err(), value with its own GRPCStatus() method, the same wrapped with %%w} x code{OK,NotFound} x message{\"boom\",empty} x details{0,1} + {value whose GRPCStatus() is nil, errors.New(\"boom\"), errors.New(\"\"), context.DeadlineExceeded, wrapped context.Canceled}); the oracle: when the handler fails, the caller gets a non-OK status (unary) resp. the reply is the data frames the handler sent followed by exactly one trailer frame whose status is not OK (streams); code, message and details must be the status's own when the error is or has a non-OK status (only the code for a wrapped one). ", len(outcomeHdrs())) +
 		fmt.Sprintf("(2) SEVERAL -bin VALUES (%d sets) over {valid base64, not base64}: every sequence of length 1..3 under one -bin key (14), two -bin keys with every sequence of length 1..2 each (36), three -bin keys with one value each (8); the oracle: 400 and no application code as soon as one value is not base64. http.Header is a map and Go randomises map iteration, so a request with more than one distinct -bin key is served %d times (a fixed number), the header map being filled in another order of its keys each time (all permutations in turn), and the first run judged wrong is the one reported; such a case still counts once in evaluations (order_dependent_cases of them). Verdicts on sequences under one key do not depend on map order. ", len(binHdrs()), orderRepeats)
 	if exhaustive {
-		rule += "Thorough tier, three disjoint blocks, each enumerated completely: A = the full product of all six axes over the hand-written header sets; B = generated header sets x cfg x registered method x every Content-Type x every body, for POST; C = generated header sets in the remaining two-axis sweeps (header set x path, header set x HTTP method) around the plain valid request of each method kind, for every cfg. grammar_size is the size of A+B+C. "
+		rule += "Thorough tier, four disjoint blocks, each enumerated completely: A = the full product of the six request axes over the hand-written header sets, on the plain recorder; B = generated header sets x cfg x registered method x every Content-Type x every body, for POST, on the plain recorder; D = every other ResponseWriter x cfg x registered method x every Content-Type x hand-written header set x every body, for POST (i.e. writer x method kind x every handler outcome the bodies produce: 0, 1, 2, 3 messages then OK, 0, 1, 2 messages then an error, undecodable request streams, and the 415/400 refusals); C = the remaining two-axis sweeps around the plain valid request of each method kind, for every cfg: generated header set x path, generated header set x HTTP method, writer x path (404), writer x HTTP method (405), writer x generated header set (handler outcomes of every shape, several -bin values). grammar_size is the size of A+B+C+D. "
 	} else {
-		rule += fmt.Sprintf("Quick tier: NOT the thorough tier's grammar (%d requests) but, around the plain valid request of each of the 4 method kinds, every single-axis sweep and every two-axis sweep (%d requests; pairwise-complete: every pair of values of any two axes, generated header sets included, occurs in some request). ", grammarSize, enumerated)
+		rule += fmt.Sprintf("Quick tier: NOT the thorough tier's grammar (%d requests) but, around the plain valid request of each of the 4 method kinds, every single-axis sweep and every two-axis sweep over the seven axes, around cfg srv, and the sweeps that involve the writer axis once more around cfg mux, where the decorating-Mux placements exist (%d requests; pairwise-complete: every pair of values of any two axes, generated header sets and writers included, occurs in some request: writer x body gives writer x method kind x handler outcome {0, 1, 2, 3 messages then OK; 0, 1, 2 messages then an error; undecodable request}, writer x HTTP method / Content-Type / header set / path give the 405 / 415 / 400 / 404 paths). ", grammarSize, enumerated)
 	}
-	rule += "A request is non-trivial when it addresses a registered method, i.e. reaches the gatekeeping code of handleMethod/handleStream (requests to unregistered paths only exercise the mux); distinct by (cfg,path,method,content type,header set,body). " +
+	rule += "A request is non-trivial when it addresses a registered method, i.e. reaches the gatekeeping code of handleMethod/handleStream (requests to unregistered paths only exercise the mux) and, for a case with a ResponseWriter wrapper, library code made at least one call on the wrapper; distinct by (cfg,path,method,content type,header set,body,writer). " +
 		"Plus the JSON==protobuf comparison: message{9} x JSON rendering{2} x JSON content type{3} x header set{3} x cfg{4}, each against the protobuf encoding of the same message (all enumerated in both tiers; counted in evaluations, and in distinct_nontrivial when both requests were dispatched). " +
 		"Plus SEVERAL REQUESTS ON ONE SERVER (sequences and overlaps): k = 1..3 requests of a pool, served by one fresh server in one fresh process (GOMAXPROCS(1), collector off) under a word over S_i (start request i, run it until its park-th ResponseWriter call WriteHeader/Write/Flush blocks on a gate, or to its end) and F_i (open the gate, run it to its end) with S_0<S_1<.. and S_i<F_i: 1/3/15 words for k=1/2/3, the first being the plain sequence; the pool is crossed with itself, so every order occurs. " +
 		"Pool = target kind{U,CS,SS,BD} x Content-Type{unary,stream,json,+charset variants,text/plain} with a body valid for that codec (every listed content type meets a kind that supports it and kinds that do not) + 20 requests differing on one other axis (sizes of the reply: same/longer/shorter, errors with details, undecodable bodies, GET, header sets including one handler-outcome directive and one sequence of -bin values, unknown method); overlapped pairs over 16 of them (JSON and protobuf unary calls of equal and different reply sizes, failing calls, a refused call, echoed metadata, one stream per kind), triples over 4 (3 JSON sizes + protobuf). Blocks enumerated completely: " + strings.Join(sc.blocks, "; ") + ". " +
@@ -766,26 +858,31 @@ func main() {
 	fmt.Printf("C11: %d requests (+%d JSON/protobuf pairs) in %.1fs; grammar size %d; classes: %v; notes: %v\n", evals, eq.evals, isolatedS, grammarSize, classes, notes)
 	fmt.Printf("C11: %d cases of several requests on one server (%d overlapped, each run twice; %d processes) in %.1fs; %v; %v\n", sc.cases, sc.overlappedCases, sc.childRuns, time.Since(start).Seconds()-isolatedS, sc.blocks, sc.classes)
 	os.Exit(rep.Finish("exploration", map[string]interface{}{
-		"evaluations":           evals + eq.evals + sc.cases,
-		"distinct_nontrivial":   nontrivial + eq.nontrivial + sc.nontrivial,
-		"sched_cases":           sc.cases,
-		"sched_processes":       sc.childRuns,
-		"sched_overlapped":      sc.overlappedCases,
-		"sched_nontrivial":      sc.nontrivial,
-		"sched_blocks":          sc.blocks,
-		"sched_shapes":          sc.classes,
-		"rule":                  rule,
-		"samples":               samples,
-		"exhaustive":            exhaustive,
-		"grammar_size":          grammarSize,
-		"requests":              evals,
-		"order_dependent_cases": orderDep,
-		"order_repeats":         orderRepeats,
-		"json_pb_pairs":         eq.evals,
-		"classes":               classes,
-		"notes":                 mergeNotes(notes, eq.notes),
+		"evaluations":            evals + eq.evals + sc.cases,
+		"distinct_nontrivial":    nontrivial + eq.nontrivial + sc.nontrivial,
+		"sched_cases":            sc.cases,
+		"sched_processes":        sc.childRuns,
+		"sched_overlapped":       sc.overlappedCases,
+		"sched_nontrivial":       sc.nontrivial,
+		"sched_blocks":           sc.blocks,
+		"sched_shapes":           sc.classes,
+		"rule":                   rule,
+		"samples":                samples,
+		"exhaustive":             exhaustive,
+		"grammar_size":           grammarSize,
+		"requests":               evals,
+		"order_dependent_cases":  orderDep,
+		"order_repeats":          orderRepeats,
+		"response_writers":       len(writers),
+		"requests_by_writer":     byWriter,
+		"wrapper_used_by_writer": wrapperUsed,
+		"json_pb_pairs":          eq.evals,
+		"classes":                classes,
+		"notes":                  mergeNotes(notes, eq.notes),
 	}, []string{
-		"net/http's connection handling is not exercised: requests are built literally and served on httptest.ResponseRecorder (no network)",
+		"net/http's connection handling is not exercised: requests are built literally and served on httptest.ResponseRecorder (no network), directly or behind a wrapper that forwards to it",
+		"ResponseWriter wrappers never fail: Write returns no error, FlushError returns nil (after a write that really failed the statement promises nothing: the connection is gone); Hijack/Push stubs refuse; the wrappers are crossed with the isolated requests only, the JSON==protobuf comparison and the several-requests-on-one-server part use the plain resp. the gated recorder (both have Flush)",
+		"the comparison with the plain recorder is not made for requests with several distinct -bin keys (map iteration order may make two runs of such a request differ by itself); behind every writer they are judged by the reference function in all 24 key orders like on the plain recorder",
 		"overlapping requests: a slow peer is modelled by a ResponseWriter whose n-th call blocks before consuming anything; interleavings are those of two steps per request (up to the gate / from the gate to the end), i.e. a request is preempted only inside its ResponseWriter, not at arbitrary instructions (races inside the library between two running requests are not explored; there is no shared mutable state in the unchanged server for them to race on)",
 		"several requests on one server: each case starts from a fresh process, so the state a case can depend on is the one its own requests create; histories longer than 3 requests are only met by the isolated sweep, where one server per configuration and worker serves all requests in enumeration order",
 		"handlers are well-behaved (propagate receive/decode errors, echo only x-echo* request metadata into response headers and trailers); they fail with an error value of another shape only when the X-Outcome request header asks for it, and then either before reading the request or after having answered it completely (not in the middle of a stream)",
@@ -797,6 +894,42 @@ func main() {
 		"when the handler's trailer metadata or status message cannot be carried by HttpTrailer (an echoed value / a quoted payload that is not valid UTF-8), any non-OK trailer status is accepted besides the handler's own outcome (reporting an unencodable response as an error is C02's demand; the lost metadata is C03's); the reply must still end with exactly one trailer frame",
 		"request frames announcing up to 100 MiB are not sent with their full payload (largest announced size actually allocated by the server: 64 KiB)",
 	}))
+}
+
+// selfCheckMessageCounts: under the reference, the bodies make the
+// server-streaming handler send 0, 1, 2, 3 messages and succeed, and 0, 1, 2
+// messages and fail; the bidi handler 0, 1, 2 and succeed; the client-streaming
+// handler 0 or 1.
+func selfCheckMessageCounts() string {
+	type key struct {
+		kind string
+		n    int
+		ok   bool
+	}
+	seen := map[key]bool{}
+	for _, b := range bodies {
+		for _, k := range []string{"CS", "SS", "BD"} {
+			r := refStream(k, b.B)
+			if r.OK || r.Code != 0 {
+				seen[key{k, len(r.Data), r.OK}] = true
+			}
+		}
+	}
+	for _, w := range []key{{"SS", 0, true}, {"SS", 1, true}, {"SS", 2, true}, {"SS", 3, true}, {"SS", 0, false}, {"SS", 1, false}, {"SS", 2, false},
+		{"BD", 0, true}, {"BD", 1, true}, {"BD", 2, true}, {"BD", 0, false}, {"BD", 1, false}, {"BD", 2, false}, {"CS", 1, true}, {"CS", 0, false}, {"CS", 1, false}} {
+		if !seen[w] {
+			return fmt.Sprintf("no body makes the %s handler send %d message(s) and finish ok=%v", w.kind, w.n, w.ok)
+		}
+	}
+	return ""
+}
+
+func capKindList() string {
+	var out []string
+	for _, k := range capKinds {
+		out = append(out, k.Name)
+	}
+	return strings.Join(out, ", ")
 }
 
 func mergeNotes(a, b map[string]int) map[string]int {
@@ -844,9 +977,17 @@ func replay(p string) int {
 		fmt.Fprintln(os.Stderr, "INCONCLUSIVE: unknown cfg in replay file:", c.Cfg)
 		return 2
 	}
-	r := checkRequest(newEnv(cfg), c.request())
+	if wv := writerByName(c.Writer); c.Writer != "" && (wv == nil || (wv.Place == placeMux && !cfg.Mux)) {
+		fmt.Fprintln(os.Stderr, "INCONCLUSIVE: unknown ResponseWriter in replay file (or one that does not exist for the cfg):", c.Writer)
+		return 2
+	}
+	rq := c.request()
+	r := checkRequest(newEnv(cfg), rq)
 	fmt.Println("replay:", describe(&c))
 	fmt.Println("  observed:", r.Obs.short(), "class:", r.Class)
+	if rq.W != nil {
+		fmt.Printf("  through the wrapper %s: %d calls, %d flushes\n", rq.W.Name, r.Obs.Probe.Calls, r.Obs.Probe.Flushes)
+	}
 	for _, f := range r.Findings {
 		fmt.Println("  ", f.Clause, f.Obs, "-", f.What)
 	}
